@@ -712,6 +712,52 @@ def quiet_base_graph(r):
     return g, [h_one, h_split, h_each]
 
 
+def comb_graph(r, N, early_stop=False, with_merge=False):
+    """A chain c1..cN with a side head s_i on every chain command: N convergence points (count 2) with
+    strictly descending max_cut, all pending at once when the heads {s_1..s_N, c_N} are committed
+    (N > 256 spills the convergence map).  Layout 1 delivers the chain as one segment, layout 2 interleaves
+    (segments [c_i, s_i]) so that the same-segment check of the braid cannot hide a lost convergence entry.
+    early_stop: side heads have the least keys, so the braid stops with the chain head alone and leaves its
+    spilled blocks behind; with_merge: afterwards a small merge of two side heads + child is added and
+    committed through the SAME RuntimeBuffers (stale convergence storage must not leak into that braid)."""
+    g = Graph()
+    nid = [100]
+
+    def new():
+        nid[0] += 1 + r.below(3)
+        return nid[0]
+    init = new()
+    g.add(init, ("i",), ())
+    d = new()
+    g.add(d, ("b", 1), (init,))
+    cs, ss = [], []
+    p = d
+    for i in range(N):
+        c = new()
+        g.add(c, ("b", 9 if early_stop else r.below(3)), (p,), r.choice(["a", "a", "q"]))
+        cs.append(c)
+        p = c
+    for i in range(N):
+        x = new()
+        g.add(x, ("b", 0 if early_stop else r.below(3)), (cs[i],), r.choice(["a", "a", "q"]))
+        ss.append(x)
+    tail = []
+    if with_merge:
+        k = N // 2
+        m = (1 << 62) + new()
+        g.add(m, ("m",), (ss[k], ss[k + 1]))
+        c = new()
+        g.add(c, ("b", 2), (m,))
+        tail = [("add", [m, c]), ("commit",)]
+    pre = [("add", [init, d])]
+    h_chain = pre + [("add", cs), ("add", ss), ("commit",)] + tail
+    inter = []
+    for i in range(N):
+        inter += [cs[i], ss[i]]
+    h_inter = pre + [("add", inter), ("commit",)] + tail
+    return g, [h_inter, h_chain]
+
+
 def spill_graph(r, K, tail):
     """K hubs under one LCA, each with two child chains that stay heads: K convergence points alive at once
     (> 3*256 spills the convergence map) and a region of > 256 commands (spills the braid result)."""
@@ -818,6 +864,15 @@ def run_braid_check(ctx, focus):
             big.append(("spill_conv_many_blocks", spill_graph(r, 1300, 1)))
     for (name, g) in big:
         graphs.append((name, g, None, {"style": "spill"}))
+    combs = []
+    if focus in ("C02", "C03") and not replay_plan:
+        # cheap spill scenarios that also run in the quick tier (memory backend): many convergence points
+        # pending at once with descending max_cut, and reuse of the convergence storage by a later braid
+        combs = [("comb300", comb_graph(r, 300)), ("comb600", comb_graph(r, 600)),
+                 ("comb_reuse", comb_graph(r, 300, early_stop=True, with_merge=True))]
+    for (name, (cg, chist)) in combs:
+        graphs.append((name, cg, None, {"style": "spill_comb", "histories": chist, "mem_only": True,
+                                        "quiet": sum(1 for x in cg.order if cg.data(x) == "q")}))
     # histories: >= 2 layouts per graph, both backends
     text = []
     plan = []            # (case name, graph index, backend, ops)
@@ -832,6 +887,8 @@ def run_braid_check(ctx, focus):
         for li in range(layouts):
             ops = fixed[li] if fixed else gen_history(r, g, failing)
             backends = ("mem", "libc") if (li == 0 or big_g) else (("mem",) if li % 2 else ("libc",))
+            if meta.get("mem_only"):
+                backends = ("mem",)
             if len(g.order) > 3000 and not thorough:
                 backends = ("libc",)
             for backend in backends:
@@ -942,6 +999,9 @@ def run_braid_check(ctx, focus):
                 if pair:
                     violations.append(("merge %d of %r has concurrent finalize commands %r in its history but the result is %s, not ParallelFinalize" % (
                         b["where"], hs, pair, b["verdict"]), replay))
+                elif ref[0] == "ok":
+                    violations.append(("merge %d of %r (a well-formed history without concurrent finalize commands) failed with %s: its commands are never applied" % (
+                        b["where"], hs, b["verdict"]), replay))
                 else:
                     stale.append((cname, "merge %d of %r: unexpected result %s" % (b["where"], hs, b["verdict"]), replay))
             obs_key.append((b["where"], b["verdict"], tuple(b["base_state"] or ()), tuple(b["order"])))
@@ -1014,6 +1074,9 @@ def run_braid_check(ctx, focus):
                 if pair:
                     violations.append(("commit of heads %r whose branches contain concurrent finalize commands %r returned %s, not ParallelFinalize" % (
                         heads, pair, final["res"]), replay))
+                elif ref[0] == "ok":
+                    violations.append(("commit of heads %r (a well-formed history without concurrent finalize commands) failed with %s: its commands are never applied" % (
+                        heads[:8], final["res"]), replay))
                 else:
                     stale.append((cname, "commit: unexpected result %s" % final["res"], replay))
         per_graph_obs.setdefault(gi, []).append((cname, sorted(obs_key, key=repr)))
@@ -1099,6 +1162,8 @@ def run_braid_check(ctx, focus):
     ctx.oblige("correspondence:impl=reference(python)", not stale, "; ".join("%s: %s" % (s[0], s[1]) for s in stale[:3]))
     ctx.oblige("correspondence:model(coq)=impl", not mism_names, "model and implementation differ on %r" % mism_names[:5])
     ctx.oblige("correspondence:layout-independent", not layout_bad, "observations differ between layouts: %r" % layout_bad[:3])
+    if combs:
+        ctx.oblige("coverage:comb-convergence-map-spilled", stats["spilled_conv"] > 0, "the comb scenarios did not drive ConvergenceMap into its spill")
     if big:
         need_conv = any(n.startswith("spill_conv") or n == "spill_both" for (n, _) in big)
         ctx.oblige("coverage:braid-result-spilled", stats["spilled_braid"] > 0, "no history drove BraidResult into its spill")
